@@ -254,6 +254,81 @@ std::vector<Workload> build()
                          }});
         }
     }
+    // 5b. malformed TECMP: what a truncated or lying message leaves undetermined must not reach a returned packet.
+    //     One workload per family member, each a sequence of decodes of exact-size heap buffers.
+    {
+        auto both = [](Out& o, const Bytes& f) {
+            Decoder d;
+            for (auto& p : d.decode(f.data(), f.size()))
+                outPacket(o, *p);
+            for (auto& p : TECMP::Decoder::Decode(f.data(), f.size()))
+                outPacket(o, *p);
+            o.val(f.size());
+        };
+        ref::TecmpHdr h;
+        h.device = 0x43; h.ifid = 0x01020304; h.ts = 0x1122334455667788ull;
+        const int lbs[] = {0, 1, 2, 7, 8, 9, 0x3F, 0x40, 0x41, 0x7F, 0x80, 0xFD, 0xFE, 0xFF};
+        // (a) CAN / CAN-FD / LIN length byte disagrees with the bytes carried (carried: 0, 1, 3, 8, 64 data bytes; trailer 0..3)
+        for (int kind = 0; kind < 3; ++kind)
+            for (int real : {0, 1, 3, 8, 64})
+            {
+                ref::TecmpHdr hh = h;
+                hh.msgType = ref::TM_DATA; hh.dataType = kind == 0 ? ref::TD_CAN : (kind == 1 ? ref::TD_CANFD : ref::TD_LIN);
+                w.push_back({fmt("tecmp lying length byte kind%d real%d", kind, real), [=](Out& o) {
+                                 for (int lb : lbs)
+                                     for (int tr = 0; tr < 4; ++tr)
+                                     {
+                                         Bytes pl = kind == 2 ? ref::tecmpLinPayload(0x7F, (uint8_t) lb, pt((size_t) real, 3), tr & 1, 0x5A)
+                                                              : ref::tecmpCanPayload(0x123, (uint8_t) lb, pt((size_t) real, 1), tr);
+                                         if (kind == 2 && tr > 1)
+                                             continue;
+                                         both(o, ref::tecmpFrame(hh, pl));
+                                     }
+                             }});
+            }
+        // (b) status messages: every payload length 0..40 x announced vendor-data length (payload bytes 4..5)
+        for (uint8_t mt : {(uint8_t) ref::TM_CM_STATUS, (uint8_t) ref::TM_BUS_STATUS})
+            for (int vdl : {-1, 0, 1, 3, 5, 12, 24, 36, 0xFFFF})
+            {
+                ref::TecmpHdr hh = h;
+                hh.msgType = mt; hh.dataType = 0;
+                w.push_back({fmt("tecmp status mt%u announced%d all payload lengths", mt, vdl), [=](Out& o) {
+                                 for (size_t n = 0; n <= 40; ++n)
+                                 {
+                                     Bytes pl = pt(n, 4);
+                                     if (vdl >= 0 && n >= 6)
+                                     {
+                                         pl[4] = (uint8_t) (vdl >> 8);
+                                         pl[5] = (uint8_t) vdl;
+                                     }
+                                     both(o, ref::tecmpFrame(hh, pl));
+                                 }
+                             }});
+            }
+        // (c) every truncation of a well-formed message of each kind
+        {
+            std::vector<Bytes> full;
+            ref::TecmpHdr hh = h;
+            hh.msgType = ref::TM_DATA; hh.dataType = ref::TD_CAN;
+            full.push_back(ref::tecmpFrame(hh, ref::tecmpCanPayload(0x123, 8, pt(8, 1), 2)));
+            hh.dataType = ref::TD_CANFD;
+            full.push_back(ref::tecmpFrame(hh, ref::tecmpCanPayload(0x321, 12, pt(12, 2), 3)));
+            hh.dataType = ref::TD_LIN;
+            full.push_back(ref::tecmpFrame(hh, ref::tecmpLinPayload(0x7F, 8, pt(8, 3), true, 0x5A)));
+            hh.dataType = 0; hh.msgType = ref::TM_CM_STATUS;
+            full.push_back(ref::tecmpFrame(hh, pt(36, 4)));
+            hh.msgType = ref::TM_BUS_STATUS;
+            full.push_back(ref::tecmpFrame(hh, pt(36, 5)));
+            for (size_t i = 0; i < full.size(); ++i)
+            {
+                Bytes f = full[i];
+                w.push_back({fmt("tecmp truncations of message %zu", i), [=](Out& o) {
+                                 for (size_t cut = 0; cut < f.size(); ++cut)
+                                     both(o, Bytes(f.begin(), f.begin() + cut));
+                             }});
+            }
+        }
+    }
     // 6. payload builders with prior contents: raw bytes
     for (int prior = 0; prior < 3; ++prior)
     {
